@@ -28,8 +28,11 @@ for d in sorted(glob.glob(os.path.join(ROOT, "seeded", "*")), key=lambda p: key(
     first = next((v["violation_kinds"][0] for v in checks.values() if v.get("violation_kinds")), "")
     earlier = m.get("earlier_evaluations") or []
     was_missed = any(v.get("verdict") == "MISSED" for e in earlier for v in e.values())
-    if was_missed:
+    caught = any(v.get("verdict") == "caught" for v in checks.values())
+    if was_missed and caught:
         verdict += " (missed before the check was strengthened)"
+    elif not caught:
+        verdict += " (not judged: see the round's notes above)"
     rows.append("| %s | %s | %s | %s | %s |" % (name, clean(m.get("summary", ""), 170), clean(m.get("needs", ""), 115), verdict, clean(first, 75)))
 
 p = os.path.join(ROOT, "DESIGN.md")
